@@ -5,6 +5,7 @@ import PharmpyModel.C02.PkConv
 import PharmpyModel.C02.Record
 import PharmpyModel.C02.Dose
 import PharmpyModel.C02.ModelRecord
+import PharmpyModel.C02.RateName
 open Pharmpy Pharmpy.C02
 
 def bad : Sexp := .list [.atom "err", .atom "bad-op"]
@@ -91,8 +92,21 @@ def pk? (x : Sexp) : Option Pk := do
 
 def pkS (pk : Pk) : Sexp := .list (pk.map (fun p => .list [.atom p.1, .atom p.2]))
 
+def rateOutS : Option Pharmpy.C01.Rates.RateOut → Sexp
+  | none => .atom "not-a-rate"
+  | some (.flow f t) => .list [.atom "flow", Sexp.ofNat f, Sexp.ofNat t]
+  | some .ambiguous => .atom "ambiguous"
+  | some .skip => .atom "skip"
+  | some .cannot => .atom "cannot"
+
 def handle (req : Sexp) : Sexp :=
   match req with
+  | .list [.atom "ratename", n, sn, dn] =>
+    match n.asNat?, sn.asNat?, dn.asNat? with
+    | some n, some sn, some dn =>
+      let nm := RateName.rateParam n sn dn
+      .list [.atom nm, Sexp.ofStrs (RateName.synonyms n sn dn), rateOutS (Pharmpy.C01.Rates.rateOf n nm)]
+    | _, _, _ => bad
   | .list [.atom "modelrec", .atom advan, solver, names, map, mrec] =>
     match solver.asBool?, symList? names, namedMap? map with
     | some sv, some ns, some mp =>
